@@ -8,7 +8,7 @@ for HEAD).  Interim 1xx responses are collected into the next final response (.i
 import re
 
 TOKEN = re.compile(rb"^[!#$%&'*+\-.^_`|~0-9A-Za-z]+$")
-STATUS_LINE = re.compile(rb"^HTTP/1\.([01]) ([0-9]{3})(?: ([^\r\n\x00]*))?$")
+STATUS_LINE = re.compile(rb"^HTTP/1\.([0-9]) ([0-9]{3})(?: ([^\r\n\x00]*))?$")
 HEXSIZE = re.compile(rb"^[0-9A-Fa-f]+$")
 
 
